@@ -1,6 +1,9 @@
 package io
 
-import "io"
+import (
+	"errors"
+	"io"
+)
 
 var (
 	_ io.Writer      = (*OffsetWriteSeeker)(nil)
@@ -33,6 +36,21 @@ func (ow *OffsetWriteSeeker) Seek(offset int64, whence int) (int64, error) {
 		panic("unsupported whence: SeekEnd")
 	}
 	return ow.Position(), nil
+}
+
+// Rewind abandons everything written at or beyond pos (relative to the initial offset): the
+// underlying writer is truncated at that point and the next Write starts there again.
+// It fails, leaving the writer where it is, when the underlying writer cannot be truncated.
+func (ow *OffsetWriteSeeker) Rewind(pos int64) error {
+	t, ok := ow.w.(interface{ Truncate(size int64) error })
+	if !ok {
+		return errors.New("underlying writer does not support truncation")
+	}
+	if err := t.Truncate(ow.base + pos); err != nil {
+		return err
+	}
+	ow.offset = ow.base + pos
+	return nil
 }
 
 // Position returns the current position of this writer relative to the initial offset, i.e. the number of bytes written.
